@@ -254,12 +254,15 @@ fn generate_e(seed: u64, quick: bool) -> Value {
     } else {
         "none"
     };
-    let cwd = *g.rng.pick(&["progdir", "parent", "decoy", "root"]);
+    // "removed": a working directory that no longer exists when the program starts (asking
+    // the system for it fails); FILE is absolute then, so nothing depends on it
+    let cwd = if g.rng.chance(1, 12) { "removed" } else { *g.rng.pick(&["progdir", "parent", "decoy", "root"]) };
     let spelling = match cwd {
         "progdir" if g.rng.chance(1, 10) => "through-missing-dir",
         "progdir" => *g.rng.pick(&["relative", "dot", "absolute", "dotdot"]),
         "parent" => *g.rng.pick(&["relative", "dot", "absolute", "dotdot"]),
         "decoy" => *g.rng.pick(&["relative", "absolute"]),
+        "removed" => "absolute",
         _ => *g.rng.pick(&["relative", "absolute"]),
     };
     json!({
@@ -482,8 +485,14 @@ fn execute_e(case: Value) -> RunResult {
         "progdir" => prog.clone(),
         "parent" => root.join("top"),
         "decoy" => decoy.clone(),
+        "removed" => {
+            let d = root.join("gone");
+            std::fs::create_dir_all(&d).unwrap();
+            d
+        }
         _ => PathBuf::from("/"),
     };
+    let remove_cwd = case["cwd"].as_str() == Some("removed");
     let abs = file.to_string_lossy().to_string();
     let given: String = match (case["cwd"].as_str().unwrap_or("progdir"), case["spelling"].as_str().unwrap_or("absolute")) {
         ("progdir", "relative") => fname.clone(),
@@ -507,7 +516,10 @@ fn execute_e(case: Value) -> RunResult {
         case["seed"], hash_seed, case["cwd"], given, case["crlf"], case["final_newline"], file_fault
     )));
     // ---- the real binary
-    let child = run_cli(&cwd, hash_seed, &[given.clone()], Duration::from_secs(90));
+    let child = run_cli_opt(&cwd, hash_seed, &[given.clone()], Duration::from_secs(90), remove_cwd);
+    // the in-process side cannot stand in a directory that is gone; with an absolute FILE the
+    // root directory is as good
+    let cwd = if remove_cwd { PathBuf::from("/") } else { cwd };
     let child = match child {
         Ok(c) => c,
         Err(e) => {
